@@ -1,2 +1,25 @@
-From Astisub Require Import Kit.Base.
-Theorem C08_placeholder : True. Proof. exact I. Qed.
+(* C08 — Totality: no reader or writer ever panics or hangs.
+   In the models every Go operation that can panic at run time is an explicit [Panic] result at the same
+   site, and every loop is a structural recursion or a fuelled one with a sufficiency argument, so
+   "never panics, always terminates" is: for every input the model's result is not [Panic].
+   Proved here for the models that exist (SubRip reader over ANY token list - any bytes under any schedule -
+   and writer over any cue list; the cue-list operations are total Gallina functions).  For WebVTT, SSA, TTML,
+   STL and teletext the property is decided on the implementation by the harness (structure-aware mutation
+   under recover() and a watchdog), which is exploration, not proof. *)
+From Coq Require Import List NArith.
+From Astisub Require Import Kit.Base Kit.Scan Model.Srt Proofs.SrtIOProofs.
+Import ListNotations.
+
+Theorem C08_srt_reader_total : forall (ls : list (list N)) (scan_err : bool) (p : N), read_srt_lines ls scan_err <> Panic p.
+Proof. exact read_srt_lines_no_panic. Qed.
+Theorem C08_srt_reader_total_bytes : forall (data : list N) (counts : list nat) (p : N), read_srt_lines (scan data counts) false <> Panic p.
+Proof. intros data counts p. apply read_srt_lines_no_panic. Qed.
+Theorem C08_srt_writer_total : forall (l : list sitem) (p : N), write_srt l <> Panic p.
+Proof. exact write_srt_no_panic. Qed.
+(* the input that crashed the reader before the repair is now an error *)
+Example C08_srt_missing_end : read_srt [48;48;58;48;48;58;48;49;44;48;48;48;32;45;45;62]%N = Err EParse.
+Proof. vm_compute. reflexivity. Qed.
+
+Print Assumptions C08_srt_reader_total.
+Print Assumptions C08_srt_reader_total_bytes.
+Print Assumptions C08_srt_writer_total.
